@@ -40,6 +40,13 @@ CHECKS = {
     'C20': ('symbolic execution of the real input checks with numpy.allclose as its tolerance formula; accept/reject obligations as path (in)feasibility decided by z3/cvc5 (QF_NRA); switch semantics by enumeration of assigned objects over a symbolic pre-state',
             'Bounded model checking: every proper rotation perturbed by <=1e-7 per entry is accepted, improper rotations and single-entry perturbations of 1e-3..1 are rejected at every guarded entry point, Euler-angle and UBI checks reject exactly the invalid inputs, '
             'switch accepts only True/False.', '', '6/C20'),
+    'C05': ('path exploration of the real sysabs on solver integers for all 237 settings; (sysabs != 0) <=> extinct-by-the-operators decided in QF_LIA (mod by constants) on every path, restricted to the lattice region the genhkl traversal can visit (segment tables read from the current source by AST); counterexamples confirmed through genhkl_all',
+            'Model checking of the reflection-condition half of the property: for every setting, every path of sysabs (about 10 000 paths in total) and every integer hkl with |h|<=24 in the traversal region, the function agrees with the group\'s own (R,t) table; '
+            'R-centred groups: hexagonal and rhombohedral settings agree under the obverse transformation. The traversal geometry (no lattice point skipped) is not covered here.', 'Claim restricted to the reflection conditions; which lattice points genhkl_base visits is outside this check.', '6/C05'),
+    'C07': ('symbolic execution of the real StructureFactor on one symbolic atom (trig-sum normal form of the phases, exp as uninterpreted atoms, symbolic metric of the crystal family); covariance identities decided by z3/cvc5 for concrete box hkl',
+            'Bounded model checking: F(hR)=F(h)exp(-2 pi i h.t) for every operation of the group and every orbit representative of the hkl box, extinct => F=0, Friedel; all atom parameters symbolic; quick: 27 groups covering every Laue class, thorough: all 230.', 'sintl and cell_invert enter through their C01 summaries.', '6/C07'),
+    'C08': ('same harness as C07: StructureFactor against the explicit sum over image atoms written in the harness; identities decided by z3/cvc5',
+            'Bounded model checking: explicit-sum equality, lattice-shift invariance, linearity in occupancy, Uiso == equivalent Uani, F(000) with zero ADP; box hkl, one symbolic atom, symbolic metric of the family.', 'sintl and cell_invert enter through their C01 summaries.', '6/C08'),
 }
 NA_REASON = {}
 
